@@ -14,7 +14,7 @@ use vhost::vhost_user::message::*;
 use vhost::vhost_user::{Frontend, VhostUserFrontend};
 use vhost::{VhostBackend, VhostUserDirtyLogRegion, VhostUserMemoryRegionInfo, VringConfigData};
 use vhost_user_backend::bitmap::BitmapMmapRegion;
-use vhost_user_backend::{VhostUserBackendMut, VhostUserDaemon, VringMutex, VringRwLock, VringT};
+use vhost_user_backend::{VhostUserBackend, VhostUserBackendMut, VhostUserDaemon, VringMutex, VringRwLock, VringT};
 use virtio_queue::QueueT;
 use vm_memory::{Bytes, GuestAddress, GuestAddressSpace, GuestMemory, GuestMemoryAtomic, GuestMemoryMmap, GuestMemoryRegion};
 use vmm_sys_util::epoll::EventSet;
@@ -209,8 +209,26 @@ impl<V: VringT<GM> + Clone + Send + Sync + 'static> VhostUserBackendMut for Tb<V
     }
 }
 
-struct Run<V: VringT<GM> + Clone + Send + Sync + 'static> {
-    daemon: VhostUserDaemon<Arc<Mutex<Tb<V>>>>,
+/// how the backend object is handed to the daemon: behind Arc<Mutex<_>> or Arc<RwLock<_>> (both adapters of backend.rs)
+trait Wrap<V: VringT<GM> + Clone + Send + Sync + 'static>:
+    VhostUserBackend<Vring = V, Bitmap = BitmapMmapRegion> + Clone + Send + Sync + 'static
+{
+    fn wrap(tb: Tb<V>) -> Self;
+}
+impl<V: VringT<GM> + Clone + Send + Sync + 'static> Wrap<V> for Arc<Mutex<Tb<V>>> {
+    fn wrap(tb: Tb<V>) -> Self {
+        Arc::new(Mutex::new(tb))
+    }
+}
+impl<V: VringT<GM> + Clone + Send + Sync + 'static> Wrap<V> for Arc<std::sync::RwLock<Tb<V>>> {
+    fn wrap(tb: Tb<V>) -> Self {
+        Arc::new(std::sync::RwLock::new(tb))
+    }
+}
+
+struct Run<V: VringT<GM> + Clone + Send + Sync + 'static, B: Wrap<V>> {
+    _v: std::marker::PhantomData<V>,
+    daemon: VhostUserDaemon<B>,
     fe: Frontend,
     sh: Arc<Mutex<Shared>>,
     probes: Vec<EventFd>,
@@ -232,7 +250,7 @@ fn vres(r: vhost::Result<()>) -> Val {
     }
 }
 
-impl<V: VringT<GM> + Clone + Send + Sync + 'static> Run<V> {
+impl<V: VringT<GM> + Clone + Send + Sync + 'static, B: Wrap<V>> Run<V, B> {
     fn worker_cmd(&mut self, thread: usize, cmd: Cmd) -> Val {
         if thread >= self.nthreads {
             return Val::s("no-such-thread");
@@ -549,10 +567,10 @@ impl<V: VringT<GM> + Clone + Send + Sync + 'static> Run<V> {
 /// a history whose last step is "teardown" ends with the count of descriptors that are still open after the
 /// frontend, the connection, the daemon and everything the harness created are gone, relative to the count
 /// before the daemon was built (C09: descriptors the daemon received are closed by it at the latest here)
-fn run_with<V: VringT<GM> + Clone + Send + Sync + 'static>(cfg: &[Val], steps: &[Val]) -> Val {
+fn run_with<V: VringT<GM> + Clone + Send + Sync + 'static, B: Wrap<V>>(cfg: &[Val], steps: &[Val]) -> Val {
     let wants = steps.last().and_then(|s| s.as_l()).and_then(|p| p.first()).and_then(|k| k.as_s()) == Some("teardown");
     let before = crate::peer::count_open_fds();
-    let v = run_inner::<V>(cfg, if wants { &steps[..steps.len() - 1] } else { steps });
+    let v = run_inner::<V, B>(cfg, if wants { &steps[..steps.len() - 1] } else { steps });
     if !wants {
         return v;
     }
@@ -581,7 +599,7 @@ fn run_with<V: VringT<GM> + Clone + Send + Sync + 'static>(cfg: &[Val], steps: &
     }
 }
 
-fn run_inner<V: VringT<GM> + Clone + Send + Sync + 'static>(cfg: &[Val], steps: &[Val]) -> Val {
+fn run_inner<V: VringT<GM> + Clone + Send + Sync + 'static, B: Wrap<V>>(cfg: &[Val], steps: &[Val]) -> Val {
     let nq = cfg[0].as_u64().unwrap_or(1) as usize;
     let maxq = cfg[1].as_u64().unwrap_or(256) as usize;
     let features = cfg[2].as_u64().unwrap_or(0);
@@ -615,7 +633,7 @@ fn run_inner<V: VringT<GM> + Clone + Send + Sync + 'static>(cfg: &[Val], steps: 
         exits: Arc::new(Mutex::new(HashMap::new())),
         _v: std::marker::PhantomData,
     };
-    let backend = Arc::new(Mutex::new(tb));
+    let backend: B = B::wrap(tb);
     let mem: GM = GuestMemoryAtomic::new(GuestMemoryMmap::new());
     let mut daemon = match VhostUserDaemon::new("vv".to_string(), backend.clone(), mem) {
         Ok(d) => d,
@@ -656,7 +674,7 @@ fn run_inner<V: VringT<GM> + Clone + Send + Sync + 'static>(cfg: &[Val], steps: 
     let fe = Frontend::from_stream(sock, 0x8000);
     fe.set_hdr_flags(VhostUserHeaderFlag::NEED_REPLY);
     let _ = fe.get_features();
-    let mut run = Run { daemon, fe, sh: sh.clone(), probes, rx, nthreads, fdt: FdTable::new(), evfds: HashMap::new(), masks, nq, listener_fds: HashMap::new(), panics0: crate::PANICS.load(std::sync::atomic::Ordering::SeqCst), beq_ends: None };
+    let mut run: Run<V, B> = Run { _v: std::marker::PhantomData, daemon, fe, sh: sh.clone(), probes, rx, nthreads, fdt: FdTable::new(), evfds: HashMap::new(), masks, nq, listener_fds: HashMap::new(), panics0: crate::PANICS.load(std::sync::atomic::Ordering::SeqCst), beq_ends: None };
     let mut out = vec![];
     for st in steps {
         let parts = match st.as_l() {
@@ -695,7 +713,7 @@ fn run_inner<V: VringT<GM> + Clone + Send + Sync + 'static>(cfg: &[Val], steps: 
     drop(daemon);
     fdt.close_ours();
     if std::env::var("VV_FD_DEBUG").is_ok() {
-        eprintln!("strong counts after daemon drop: sh={} backend={}", Arc::strong_count(&sh), Arc::strong_count(&backend));
+        eprintln!("strong counts after daemon drop: sh={}", Arc::strong_count(&sh));
     }
     let _ = std::fs::remove_file(&path);
     let _ = std::fs::remove_dir(&dir);
@@ -708,9 +726,11 @@ pub fn run(args: &[Val]) -> Val {
         [Val::L(c), Val::L(s)] if c.len() >= 6 => (c, s),
         _ => return Val::err("args"),
     };
-    if cfg[5].as_u64() == Some(1) {
-        run_with::<VringRwLock<GM>>(cfg, steps)
-    } else {
-        run_with::<VringMutex<GM>>(cfg, steps)
+    // kind: bit 0 = RwLock-backed rings, bit 1 = the backend behind Arc<RwLock<_>> instead of Arc<Mutex<_>>
+    match cfg[5].as_u64().unwrap_or(0) {
+        1 => run_with::<VringRwLock<GM>, Arc<Mutex<Tb<VringRwLock<GM>>>>>(cfg, steps),
+        2 => run_with::<VringMutex<GM>, Arc<std::sync::RwLock<Tb<VringMutex<GM>>>>>(cfg, steps),
+        3 => run_with::<VringRwLock<GM>, Arc<std::sync::RwLock<Tb<VringRwLock<GM>>>>>(cfg, steps),
+        _ => run_with::<VringMutex<GM>, Arc<Mutex<Tb<VringMutex<GM>>>>>(cfg, steps),
     }
 }
